@@ -143,8 +143,17 @@ def host_cases(rng, tier, n):
         top = admitted if (admitted and r < 0.85) else [None, "urn:a", "urn:b", "urn:t"]
         n_top = rng.choice([0, 1, 1, 2, 3])
         forest = []
+        outer = None
         for _ in range(n_top):
             t = L.rand_tree(rng, rng.randint(1, 6), clean=rng.random() < 0.6, top_ns=top)
+            if rng.random() < 0.12 and kind != "choice":
+                # QName-typed primitive whose prefix is declared on the element itself / re-bound / defaulted
+                t, o = L.qname_leaf(rng, t["q"], t["tl"])
+                outer = outer or o
+                if rng.random() < 0.1:
+                    t["t"] = rng.choice(["zz:bar", "a b", "w:"])      # not a QName in scope (correspondence only)
+                forest.append(t)
+                continue
             if rng.random() < 0.12 and not (kind == "choice" and "##other" in nsmode):
                 # an xsi:type'd primitive as direct wildcard content (in a compound field it is written under the
                 # placeholder name of the wildcard choice, "{!ns}any" for ##other, which lxml refuses: finding
@@ -161,6 +170,8 @@ def host_cases(rng, tier, n):
         text = rng.choice([None, None, "\n ", "lead"]) if kind in ("mixed", "single", "list") else rng.choice([None, "\n "])
         root_attrs = [["ra", "1"], ["{urn:b}rb", "x y"]][: rng.randint(0, 2)] if attributes else []
         doc = L.host_doc(kind, target, forest, text, root_attrs, rng.choice(["h", ""]) if head else None)
+        if outer:
+            L.bind_outer(doc, *outer)
         yield u, ctx, desc, doc, {"kind": kind, "nsmode": nsmode, "target": target}
 
 
@@ -284,7 +295,11 @@ def oracle_preserve(a):
 
         h = XmlEventHandler if handler == "native" else LxmlEventHandler
         try:
-            obj = XmlParser(context=XmlContext(models_package=u.modname), handler=h).from_bytes(data, u.classes["Root"])
+            import warnings
+
+            with warnings.catch_warnings():
+                warnings.simplefilter("ignore")
+                obj = XmlParser(context=XmlContext(models_package=u.modname), handler=h).from_bytes(data, u.classes["Root"])
         except Exception as e:  # noqa: BLE001
             return f"{handler}: generic content admitted by the wildcard is not parsed: {type(e).__name__}: {e}"
         for writer in ("native", "lxml"):
@@ -352,6 +367,8 @@ def adapt_preserve(op, a):
             continue
         if ns not in admitted:
             return None
+        if any(k == L.XSI_TYPE and v == "xs:QName" for k, v in c["a"]) and not L.valid_qname_content(c):
+            return None      # not a QName: the property says nothing about it
     if (info["kind"] == "choice" or ("head" in flds and info["kind"] != "mixed")) and not L.is_blank(doc["t"]):
         return None      # character data around typed siblings of an element-only model
     return {"kind": info["kind"], "nsmode": info["nsmode"], "target": info["target"], "attributes": "attrs" in flds,
